@@ -1,6 +1,223 @@
-"""Loops with symbolic trip counts: inductive invariants from the sidecar contracts."""
+"""Loops with symbolic trip counts: inductive invariants from the sidecar contracts.
+
+A contract file declares
+    loop_invariant("pyrex.mod.Class.method", ordinal, inv_fn [, havoc=[names]])
+where ordinal counts the for/while statements of the function in source order and inv_fn is a
+spec-language function receiving the function's local variables by name (keyword arguments; it
+may ignore the rest with **_).  For a `for x in range(n)` / sequence loop the loop index is passed
+as `_k` (number of completed iterations).
+
+Verification scheme (all iterations, no bound):
+  entry:  invariant holds for the state at loop entry
+  step:   havoc the variables the body assigns; assume invariant (+ loop condition);
+          execute the body once; prove the invariant again; the path ends
+  exit:   havoc; assume invariant and the negated condition; continue after the loop
+`return` inside the body leaves the function as usual (the harness' postconditions apply);
+`break` continues after the loop with the state at the break.
+"""
+import ast
+
+import z3
+
 from .values import *   # noqa
+from .engine import *   # noqa
+from .engine import _Return, _Break, _Continue
+from .reals import R, I
+
+
+def loop_ordinal(fn_node, st):
+    k = 0
+    for n in ast.walk(fn_node):
+        pass
+    # source order
+    loops = [n for n in ast.walk(fn_node) if isinstance(n, (ast.For, ast.While))]
+    loops.sort(key=lambda n: (n.lineno, n.col_offset))
+    for i, n in enumerate(loops):
+        if n is st:
+            return i
+    return None
 
 
 def find_invariant(it, st, frame, ctx):
-    return None
+    if frame.func is None or not ctx.loop_invariants:
+        return None
+    q = frame.func.qualname
+    specs = ctx.loop_invariants.get(q)
+    if not specs:
+        return None
+    k = loop_ordinal(frame.func.node, st)
+    return specs.get(k)
+
+
+def assigned_names(stmts):
+    out = set()
+
+    def tgt(t):
+        if isinstance(t, ast.Name):
+            out.add(t.id)
+        elif isinstance(t, (ast.Tuple, ast.List)):
+            for e in t.elts:
+                tgt(e)
+        elif isinstance(t, ast.Starred):
+            tgt(t.value)
+    for s in stmts:
+        for n in ast.walk(s):
+            if isinstance(n, ast.Assign):
+                for t in n.targets:
+                    tgt(t)
+            elif isinstance(n, (ast.AugAssign, ast.AnnAssign)):
+                tgt(n.target)
+            elif isinstance(n, ast.For):
+                tgt(n.target)
+            elif isinstance(n, ast.NamedExpr):
+                tgt(n.target)
+    return out
+
+
+def int_preserving(stmts, name):
+    """every assignment to `name` in the body keeps it an integer (x = <int>, x += <int>, x -= <int>,
+    x = x + <int>, loop target of range/enumerate index)"""
+    def is_int_expr(e):
+        if isinstance(e, ast.Constant):
+            return isinstance(e.value, int) and not isinstance(e.value, bool)
+        if isinstance(e, ast.Name):
+            return e.id == name
+        if isinstance(e, ast.BinOp) and isinstance(e.op, (ast.Add, ast.Sub, ast.Mult)):
+            return is_int_expr(e.left) and is_int_expr(e.right)
+        if isinstance(e, ast.Call) and isinstance(e.func, ast.Name) and e.func.id in ("len", "int"):
+            return True
+        return False
+    for s in stmts:
+        for n in ast.walk(s):
+            if isinstance(n, ast.Assign):
+                for t in n.targets:
+                    for m in ast.walk(t):
+                        if isinstance(m, ast.Name) and m.id == name:
+                            if not (isinstance(t, ast.Name) and is_int_expr(n.value)):
+                                return False
+            elif isinstance(n, ast.AugAssign) and isinstance(n.target, ast.Name) and n.target.id == name:
+                if not (isinstance(n.op, (ast.Add, ast.Sub, ast.Mult)) and is_int_expr(n.value)):
+                    return False
+            elif isinstance(n, ast.For):
+                for m in ast.walk(n.target):
+                    if isinstance(m, ast.Name) and m.id == name:
+                        return False
+    return True
+
+
+def havoc(ctx, frame, names, explicit=None, body=None):
+    """replace scalar-valued locals that the body assigns by fresh symbols of the same sort"""
+    for nm in sorted(names):
+        if nm not in frame.locals:
+            continue
+        v = frame.locals[nm]
+        if explicit is not None and nm in explicit:
+            frame.locals[nm] = explicit[nm]
+            continue
+        if isinstance(v, bool) or (is_z3(v) and z3.is_bool(v)):
+            frame.locals[nm] = ctx.fresh("loop_" + nm, z3.BoolSort())
+        elif (isinstance(v, int) or (is_z3(v) and v.sort() == I)) and body is not None and int_preserving(body, nm):
+            frame.locals[nm] = ctx.fresh("loop_" + nm, I)
+        elif isinstance(v, int) or (is_z3(v) and v.sort() == I):
+            # may become non-integral in the body: the arbitrary pre-state must range over the reals
+            frame.locals[nm] = ctx.fresh("loop_" + nm, R)
+        elif isinstance(v, Fraction) or (is_z3(v) and v.sort() == R):
+            frame.locals[nm] = ctx.fresh("loop_" + nm, R)
+        # other kinds (objects, strings, arrays) keep their value: the invariant must not depend on
+        # them unless the contract passes an explicit havoc function
+
+
+def call_inv(it, ctx, inv, frame, extra):
+    fn = inv["fn"]
+    params = [a.arg for a in fn.node.args.args]
+    kw = {}
+    env = dict(frame.locals)
+    env.update(extra)
+    for p in params:
+        if p in env:
+            kw[p] = env[p]
+        else:
+            raise Unsupported("loop invariant parameter %r is not a local variable" % p)
+    if fn.node.args.kwarg is not None:
+        pass
+    return it.truth(it.call(fn, [], kw, ctx), ctx)
+
+
+def exec_while_inv(it, st, frame, ctx, inv):
+    name = inv.get("name", "loop-invariant@%d" % st.lineno)
+    ctx.prove(name + ":entry", call_inv(it, ctx, inv, frame, {}))
+    names = assigned_names(st.body) | set(inv.get("havoc", []))
+    havoc(ctx, frame, names, body=st.body)
+    ctx.assume(call_inv(it, ctx, inv, frame, {}))
+    phase = ctx.choice(2)
+    cond = it.ev_cond(st.test, frame, ctx)
+    if phase == 0:
+        ctx.assume(cond)
+        try:
+            it.exec_block(st.body, frame, ctx)
+        except _Break:
+            return
+        except _Continue:
+            pass
+        ctx.prove(name + ":preserved", call_inv(it, ctx, inv, frame, {}))
+        ctx.cut_ok = True
+        raise PathEnd()
+    ctx.assume(z_not(cond))
+    it.exec_block(st.orelse, frame, ctx)
+
+
+def exec_for_inv(it, st, frame, ctx, iterable, inv):
+    from . import symlist
+    name = inv.get("name", "loop-invariant@%d" % st.lineno)
+    # length and element access of the iterable
+    if isinstance(iterable, RangeVal):
+        if iterable.step != 1:
+            raise Unsupported("invariant loop over a range with step")
+        n = num_binop("-", iterable.hi, iterable.lo)
+        n = z_ite(num_cmp(">", n, 0), n, 0)
+        elem = lambda k: num_binop("+", iterable.lo, k)
+    elif isinstance(iterable, SymArr):
+        n = iterable.n
+        elem = iterable.elem
+    elif isinstance(iterable, symlist.SymList):
+        n = iterable.n
+        elem = iterable.get
+    elif isinstance(iterable, symlist.Enumerate):
+        seq = iterable.seq
+        n = seq.n
+        g = seq.elem if isinstance(seq, SymArr) else seq.get
+        st0 = iterable.start
+        elem = lambda k: (num_binop("+", k, st0), g(k))
+    elif isinstance(iterable, symlist.Zip):
+        seqs = iterable.seqs
+        n = None
+        for s in seqs:
+            ln = s.n if isinstance(s, (SymArr, symlist.SymList)) else len(s)
+            n = ln if n is None else z_ite(num_cmp("<=", n, ln), n, ln)
+        elem = lambda k: tuple((s.elem(k) if isinstance(s, SymArr) else s.get(k) if isinstance(s, symlist.SymList)
+                                else it.getitem(s, k, ctx)) for s in seqs)
+    elif isinstance(iterable, (list, tuple)):
+        n = len(iterable)
+        elem = lambda k: it.getitem(iterable, k, ctx)
+    else:
+        raise Unsupported("invariant loop over %r" % (iterable,))
+    ctx.prove(name + ":entry", call_inv(it, ctx, inv, frame, {"_k": 0, "_n": n}))
+    names = (assigned_names(st.body) | set(inv.get("havoc", []))) - assigned_names([ast.Assign(targets=[st.target], value=None)] if False else [])
+    havoc(ctx, frame, names, body=st.body)
+    k = ctx.fresh("loop_k", I)
+    phase = ctx.choice(2)
+    if phase == 0:
+        ctx.assume(z_and(num_cmp(">=", k, 0), num_cmp("<", k, n)))
+        ctx.assume(call_inv(it, ctx, inv, frame, {"_k": k, "_n": n}))
+        it.assign(st.target, elem(k), frame, ctx)
+        try:
+            it.exec_block(st.body, frame, ctx)
+        except _Break:
+            return
+        except _Continue:
+            pass
+        ctx.prove(name + ":preserved", call_inv(it, ctx, inv, frame, {"_k": num_binop("+", k, 1), "_n": n}))
+        ctx.cut_ok = True
+        raise PathEnd()
+    ctx.assume(call_inv(it, ctx, inv, frame, {"_k": n, "_n": n}))
+    it.exec_block(st.orelse, frame, ctx)
